@@ -74,5 +74,16 @@ pub fn oneline(s: &str) -> String {
 /// evaluate one form (text of exactly one datum) uninterrupted
 pub fn eval_form(vm: &mut Vm, text: &str) -> Result<Cell, Error> {
     let (cell, _) = marwood::parse::parse_text(text)?;
-    vm.eval(&cell)
+    // same as `Vm::eval` (prepare_eval + run) but with an instruction ceiling: generated programs terminate
+    // by construction, so a form that is still running after 5*10^7 instructions is a generator bug (or a
+    // seeded change that makes the VM loop); stop instead of exhausting the machine's memory.
+    vm.prepare_eval(&cell)?;
+    match vm.run_count(50_000_000)? {
+        Some(c) => Ok(c),
+        None => {
+            eprintln!("verif harness: evaluation exceeded 5e7 instructions: {}", text);
+            println!("#oracle budget-exceeded {}\tno-completion\tcompletes", oneline(text));
+            std::process::exit(0)
+        }
+    }
 }
